@@ -145,6 +145,7 @@ def RandErr(seed, profile, dim, a=None, b=None):
             def __init__(self, seed, profile, dim, a, b):
                 super().__init__()
                 self.rng = random.Random(seed)
+                self.seed = seed
                 self.profile = profile
                 self.dim = dim
                 self.step = 0
@@ -190,6 +191,15 @@ def RandErr(seed, profile, dim, a=None, b=None):
                     lo, hi = refine_object.start, refine_object.end
                     dist = 0.0 if lo <= t <= hi else min(abs(t - lo), abs(t - hi)) / (self.b[k] - self.a[k])
                     return 1.0 / (1e-3 + dist)
+                if p == "geomhash":
+                    # stateless: a deterministic function of the object's geometry (same value when re-evaluated)
+                    k = getattr(refine_object, "this_dim", None)
+                    if k is None:
+                        key = tuple(float(x) for x in refine_object.start) + tuple(float(x) for x in refine_object.end)
+                    else:
+                        key = (float(k), float(refine_object.start), float(refine_object.end))
+                    v = 0.5 * (hash01(key, self.seed) + 1.0)
+                    return v if v > 0.35 else 0.0
                 if p == "real":
                     if getattr(refine_object, "volume", None) is None:
                         return 0.0
